@@ -273,7 +273,13 @@ func runC09Forced(a childArgs) error {
 	if !hung {
 		// a collection larger than a search window, so that the two readers touch different nodes
 		bulk := batchSpec{kind: 0}
-		for i := 0; i < 90; i++ {
+		nbulk := 90
+		for _, ix := range g.schema {
+			if ix.kind == ixVamana && ix.degree <= 8 {
+				nbulk = 500 // a sparse graph far larger than one search visits: later searches must miss the cache
+			}
+		}
+		for i := 0; i < nbulk; i++ {
 			var u uuid.UUID
 			for j := range u {
 				u[j] = byte(r.IntN(256))
@@ -349,6 +355,41 @@ func runC09Forced(a childArgs) error {
 				ps.mu.Lock()
 				ps.readHook = nil
 				ps.mu.Unlock()
+			}
+		}
+		// phase C, nothing concurrent at all: on the shard object and cache manager the last iteration left behind
+		// (index caches created by an earlier, finished read transaction and only partially warm: the collection is
+		// larger than one search visits) a few more searches from other regions of the space, one after the
+		// other (point 6). Each runs in its own read transaction and must read what it misses through that one.
+		for _, rq := range vreqs {
+			for k := 0; k < 6 && !hung; k++ {
+				rq3 := rq
+				rq3.q.vec = make([]float32, len(rq.q.vec))
+				for j := range rq3.q.vec {
+					rq3.q.vec[j] = float32(r.IntN(41) - 20)
+				}
+				rq3.q.limit = 5
+				runSearch(rq3, version, 6)
+			}
+			// the exact regime: a pre-filter of 12 points of the bulk batch (all live, all carry the vector), limit
+			// 12: the answer must be exactly those 12 points (point 7) -- a point the search cannot read is missing
+			if rq.q.kind == "vamana" && len(bulk.points) >= 24 {
+				for k := 0; k < 6 && !hung; k++ {
+					rq4 := rq
+					rq4.q.vec = make([]float32, len(rq.q.vec))
+					for j := range rq4.q.vec {
+						rq4.q.vec[j] = float32(r.IntN(41) - 20)
+					}
+					ids := []uuid.UUID{}
+					for _, pi := range r.Perm(len(bulk.points))[:12] {
+						ids = append(ids, bulk.points[pi].id)
+					}
+					f := querySpec{kind: "idany", ids: ids}
+					rq4.q.filter = &f
+					rq4.q.limit = 12
+					rq4.q.search = 30
+					runSearch(rq4, version, 7)
+				}
 			}
 		}
 	}
